@@ -29,13 +29,13 @@ PROPS = {
                         lambda f: f['dead'] == 1 or 'C03' in f['msg'] or f['op'] in ITER_OPS or f['op'] == 'op_save')],
     },
     'C06': {
-        'modules': ['OtterVerif.Props.C06'],
+        'modules': ['OtterVerif.Props.C06', 'OtterVerif.Props.C06Conc'],
         'engines': [seq(['mix', 'bound', 'expiry', 'deferred'], 320, 10000, lambda f: f['class'] in ('C06', 'events')),
                     # concurrent writers, changing maximum, both handlers logged: every written value reported exactly once by each
                     {'kind': 'unit', 'name': 'concevents', 'hcmd': 'conc-events', 'dcmd': 'concevents', 'quick': 120, 'thorough': 6000, 'chunk': 10, 'args': []}],
     },
     'C07': {
-        'modules': ['OtterVerif.Props.C07'],
+        'modules': ['OtterVerif.Props.C07', 'OtterVerif.Props.C06Conc'],
         'engines': [seq(['bound', 'mix', 'expiry'], 300, 10000, lambda f: f['class'] == 'events'),
                     {'kind': 'unit', 'name': 'concevents', 'hcmd': 'conc-events', 'dcmd': 'concevents', 'quick': 120, 'thorough': 6000, 'chunk': 10, 'args': [],
                      'accept': lambda f: 'C07' in f['msg'] or 'more than once' in f['msg']}],
